@@ -890,12 +890,26 @@ def name_program(pid, cfg, names, lookups=None, origin="names"):
             ops.append({"op": "rename", "at": "D", "src": nm[0], "to": "D", "dst": nm[1]})
         elif kind == "remove":
             ops.append({"op": "remove", "at": "D", "path": nm})
+        elif kind in ("create_file", "create_dir"):
+            ops.append({"op": kind, "at": "D", "path": nm})
         else:
             ops.append({"op": "open_file", "at": "D", "path": nm, "as": "l%d" % j})
             ops.append({"op": "close", "h": "l%d" % j})
     ops.append({"op": "list", "at": "D", "path": ""})
     ops.append({"op": "unmount"})
     return {"id": pid, "cfg": cfg, "ops": ops, "origin": origin}
+
+
+def overlong_fold_batches():
+    """names that are too long (more than 255 bytes in UTF-8) or hold an illegal character, but whose upper-case form is the upper-case form
+    of a valid name already in the directory: the name is invalid whatever the directory holds (validation does not depend on a lookup)"""
+    out = []
+    for ch, alt, n in (("i", "\u0131", 130), ("s", "\u017f", 200), ("k", "\u212a", 90)):
+        good = ch * n                      # valid: n bytes
+        bad = alt * n                      # 2-3 bytes per character: more than 255 bytes, same fold key where the fold maps alt to ch
+        out.append(([good, "other " + ch], [("create_file", bad), ("create_dir", bad), ("rename", ("other " + ch, bad)), ("open", bad),
+                                               ("create_file", good.upper()), ("rename", ("other " + ch, good.upper() + "*"))]))
+    return out
 
 
 def bmp_points(quick):
@@ -1067,6 +1081,20 @@ def alias_program(rng, pid, cfg, names, removals=0.15, every=1):
     ops.append({"op": "list", "at": "D", "path": ""})
     ops.append({"op": "unmount"})
     return {"id": pid, "cfg": cfg, "ops": ops, "origin": "alias"}
+
+
+def alias_fault_program(rng, pid, cfg):
+    """a directory holds entries whose aliases collide with the alias of a new name; one device call of the creation fails (a read of the
+    directory scan among them) and the program goes on: if the call reports success, its alias must still be unique"""
+    stem = rng.choice(["quarterly report", "Long File Name", "longfilename"])
+    ops = [{"op": "create_dir", "at": "", "path": "d", "as": "D"}]
+    n = rng.randrange(3, 12)
+    for i in range(n):
+        ops.append({"op": "create_file", "at": "D", "path": "%s %d.txt" % (stem, i)})
+    at = len(ops)
+    ops += [{"op": "create_file", "at": "D", "path": "%s new.txt" % stem}, {"op": "create_file", "at": "D", "path": "%s newer.txt" % stem},
+            {"op": "list", "at": "D", "path": ""}, {"op": "unmount"}, {"op": "list", "at": "", "path": "d"}, {"op": "unmount"}]
+    return {"id": pid, "cfg": cfg, "ops": ops, "fault": {"at": at, "k": rng.randrange(1, 4 * n + 12), "continue": True}, "origin": "alias-fault"}
 
 
 def alias_move_program(rng, pid, cfg, n=8):
@@ -1445,7 +1473,7 @@ def foreign_program(rng, pid, vol, cs, oem, n_ops=12):
     return {"id": pid, "cfg": cfg, "ops": ops, "origin": "foreign"}
 
 
-def foreign_high_program(rng, pid):
+def foreign_high_program(rng, pid, rewrite=0.3):
     """a FAT32 volume whose whole tree lives in clusters numbered 65536 and above (both halves of every first-cluster field in use):
     files are emptied, shortened and rewritten, directories and files move into the root and between directories"""
     vol, cs, oem = foreign_volume(rng, 32)
@@ -1465,9 +1493,21 @@ def foreign_high_program(rng, pid):
         d("High Dir A", "HIGHDI~1   ", [d("Inner Dir", "INNERD~1   ", [f("deep file.bin", "DEEPFI~1BIN", cs + 7)]), f("in a.txt", "INA~1   TXT", 3 * cs)]),
         d("High Dir B", "HIGHDI~2   ", [f("in b.txt", "INB~1   TXT", 1)]),
         f("top one.dat", "TOPONE~1DAT", 2 * cs + 1), f("top two.dat", "TOPTWO~1DAT", cs)]
+    # chains that begin exactly at a multiple of 65536: the low half of the first-cluster field is zero, the high half is not
+    edge = f("edge file.bin", "EDGEFI~1BIN", cs + 5)
+    edge["chain"] = [65536, 65537]
+    vol["tree"].append(edge)
+    if vol["n"] > 131080:
+        ed = d("Edge Dir", "EDGEDI~1   ", [f("inside.txt", "INSIDE  TXT", 9)])
+        ed["chain"] = [131072]
+        vol["tree"].append(ed)
     known = _names_of(vol["tree"])
     files = [p for p, k in known if k == "f"]
     ops = [{"op": "stats"}, {"op": "list", "at": "", "path": ""}]
+    if vol["n"] > 131080:
+        ops += [{"op": "list", "at": "", "path": "Edge Dir"}, {"op": "create_file", "at": "", "path": "Edge Dir/new in edge.txt"}]
+    ops += [{"op": "open_file", "at": "", "path": "edge file.bin", "as": "eg"}, {"op": "read_all", "h": "eg", "len": 3 * cs}, {"op": "extents", "h": "eg"},
+            {"op": "seek", "h": "eg", "from": "end", "off": 0}, {"op": "write_all", "h": "eg", "pat": 77, "len": cs}, {"op": "close", "h": "eg"}]
     n = 0
     for fl in files:
         n += 1
@@ -1477,7 +1517,7 @@ def foreign_high_program(rng, pid):
             ops.append({"op": "open_file", "at": "", "path": fl, "as": h})
             ops.append({"op": "seek", "h": h, "from": "start", "off": rng.choice([0, 0, 0, 0, 1, cs])})
             ops.append({"op": "truncate", "h": h})
-            if rng.random() < 0.3:
+            if rng.random() < rewrite:
                 ops.append({"op": "write_all", "h": h, "pat": n, "len": rng.choice([1, cs + 1])})
             ops.append({"op": "close", "h": h})
     # some of the emptied / shortened files are removed again (everything they owned must come back, nothing more)
@@ -1689,6 +1729,33 @@ def half_deleted_cases(quick=True):
     return dirs
 
 
+def interrupted_run_cases():
+    """a complete long-name run into which one foreign slot was INSERTED (deleted slot, volume label, long-name slot with index 0) and that
+    continues consistently behind it: the run is broken (its beginning is cut off), the reader must fall back to the short name - and must
+    not resume the interrupted run with what it remembered; and short names whose first byte is 0x05 (the escape for 0xE5): the checksum of
+    the run is the checksum of the eleven bytes as stored"""
+    dirs = []
+    raw = [ord(c) for c in "TARGET  TXT"]
+    good = _chk(raw)
+    tail = [sfn_slot([ord(c) for c in "AFTER   BIN"], size=3)]
+    inserts = [[0xE5] + sfn_slot([ord(c) for c in "GONE    TMP"])[1:], [0xE5] + lfn_slot(0x41, good, [0x71] * 13)[1:],
+               sfn_slot([ord(c) for c in "LABEL      "], attr=0x08), lfn_slot(0x40, good, [0x7A] * 13), lfn_slot(0x20, good, [0x7A] * 13)]
+    for n in (2, 3, 4, 5):
+        for ln in (n * 13, n * 13 - 4):
+            run = lfn_run_slots([ord("a") + (k % 26) for k in range(ln)], good)
+            for at in range(1, n):
+                for ins in inserts:
+                    dirs.append(run[:at] + [ins] + run[at:] + [sfn_slot(raw)] + tail)
+                    dirs.append(run[:at] + [ins, ins] + run[at:] + [sfn_slot(raw)] + tail)
+    raw5 = [0x05] + [ord(c) for c in "ILE    TXT"]
+    rawE = [0xE5] + raw5[1:]
+    for ck in (_chk(raw5), _chk(rawE)):
+        for ln in (5, 13, 20):
+            dirs.append(lfn_run_slots([ord("k") + (k % 7) for k in range(ln)], ck) + [sfn_slot(raw5)] + tail)
+            dirs.append(lfn_run_slots([ord("k") + (k % 7) for k in range(ln)], ck) + [sfn_slot(raw5, attr=0x10)] + tail)
+    return dirs
+
+
 def single_slot_cases():
     """one long-name slot of every order / last-flag / checksum / deleted pattern, followed by a file, a directory, a label, a deleted
     entry or the end"""
@@ -1712,7 +1779,7 @@ def single_slot_cases():
 
 def dir_cases(rng, quick=True):
     """list of directories (lists of 32-byte slots)"""
-    dirs = orphan_cases(rng, quick) + single_slot_cases() + half_deleted_cases(quick)
+    dirs = orphan_cases(rng, quick) + single_slot_cases() + half_deleted_cases(quick) + interrupted_run_cases()
     raw = [ord(c) for c in "TARGET  TXT"]
     good = _chk(raw)
     tail = [sfn_slot([ord(c) for c in "AFTER   BIN"], size=3)]
@@ -1965,6 +2032,43 @@ def unmount_fault_program(rng, pid, cfg, cs):
     ops += [{"op": "stats"}, {"op": "list", "at": "", "path": ""}, {"op": "create_file", "at": "", "path": "later.bin", "as": "l"}, {"op": "write_all", "h": "l", "pat": 3, "len": cs + 1},
             {"op": "close", "h": "l"}, {"op": "stats"}, {"op": "unmount"}, {"op": "stats"}, {"op": "unmount"}]
     return {"id": pid, "cfg": cfg, "ops": ops, "fault": {"at": at, "k": rng.randrange(1, 14), "sticky": rng.random() < 0.6, "continue": True}, "origin": "unmount-fault"}
+
+
+def append_fault_program(rng, pid, cfg, cs):
+    """a file grows by a cluster and one device call of that write fails (the k-th: the table updates of the allocation are among the
+    first); the caller repeats the write, another open file grows, the first is written again.  Whatever the failed call left behind,
+    the table must never link a used cluster to a free one (the next allocation would hand that cluster to someone else)"""
+    ops = [{"op": "create_file", "at": "", "path": "a.bin", "as": "a"}, {"op": "write_all", "h": "a", "pat": 1, "len": rng.choice([cs, 2 * cs])},
+           {"op": "create_file", "at": "", "path": "b.bin", "as": "b"}, {"op": "write_all", "h": "b", "pat": 2, "len": rng.choice([1, cs])}]
+    if rng.random() < 0.4:
+        ops += [{"op": "create_dir", "at": "", "path": "d"}]
+    at = len(ops)
+    grow = rng.choice(["file", "file", "dir"])
+    if grow == "file":
+        ops += [{"op": "write_all", "h": "a", "pat": 3, "len": cs}, {"op": "write_all", "h": "a", "pat": 3, "len": cs}]
+    else:
+        ops += [{"op": "create_dir", "at": "", "path": "grown"}, {"op": "create_dir", "at": "", "path": "grown"}]
+    ops += [{"op": "write_all", "h": "b", "pat": 4, "len": 2 * cs}, {"op": "write_all", "h": "a", "pat": 5, "len": cs + 1}, {"op": "flush", "h": "a"}, {"op": "flush", "h": "b"},
+            {"op": "close", "h": "a"}, {"op": "close", "h": "b"}, {"op": "open_file", "at": "", "path": "a.bin", "as": "ra"}, {"op": "read_all", "h": "ra", "len": 6 * cs},
+            {"op": "open_file", "at": "", "path": "b.bin", "as": "rb"}, {"op": "read_all", "h": "rb", "len": 6 * cs}, {"op": "unmount"}]
+    return {"id": pid, "cfg": cfg, "ops": ops, "fault": {"at": at, "k": rng.randrange(1, 14), "continue": True}, "origin": "append-fault"}
+
+
+def atime_seek_program(rng, pid, cfg, cs):
+    """access-date updating on: a read stamps today's date wherever in the file it takes place (after a seek, in the middle of a handle's
+    life, on a handle that stays open over midnight), from the configured clock"""
+    cfg = dict(cfg, atime=True)
+    ops = [{"op": "clock", "t": [2020, 1, 1, 10, 0, 0, 0]},
+           {"op": "create_file", "at": "", "path": "log.bin", "as": "w"}, {"op": "write_all", "h": "w", "pat": 6, "len": 3 * cs + 9}, {"op": "close", "h": "w"},
+           {"op": "clock", "t": [2020, 1, 2, 10, 0, 0, 0]},
+           {"op": "open_file", "at": "", "path": "log.bin", "as": "a"}, {"op": "read", "h": "a", "len": 7}, {"op": "close", "h": "a"}, {"op": "list", "at": "", "path": ""},
+           {"op": "clock", "t": [2020, 1, 3, 23, 59, 58, 0]},
+           {"op": "open_file", "at": "", "path": "log.bin", "as": "b"}, {"op": "seek", "h": "b", "from": "start", "off": rng.choice([1, cs - 1, cs, cs + 5, 2 * cs])},
+           {"op": "read", "h": "b", "len": rng.choice([1, 10, cs])}, {"op": rng.choice(["flush", "close"]), "h": "b"}, {"op": "list", "at": "", "path": ""},
+           {"op": "clock", "t": [2020, rng.randrange(2, 13), rng.randrange(1, 29), 0, 0, 1, 0]},
+           {"op": "read", "h": "b", "len": 3}, {"op": "close", "h": "b"}, {"op": "list", "at": "", "path": ""},
+           {"op": "unmount"}, {"op": "list", "at": "", "path": ""}, {"op": "unmount"}]
+    return {"id": pid, "cfg": cfg, "ops": ops, "origin": "stamps:atime-seek"}
 
 
 def with_remounts(prog, rng, k=2):
